@@ -34,10 +34,13 @@ type CtxPlan struct {
 	EndUs        int    `json:"end_us,omitempty"`
 	EndKind      string `json:"end_kind,omitempty"` // cancel | timeout
 	InRead       string `json:"in_read"`            // none | cancel | cancel-gosched (inside the transport's last Read)
-	After        string `json:"after"`              // none | cancel | gosched-cancel | cancel-gosched | delay-cancel | timeout-after
-	DelayUs      int    `json:"delay_us,omitempty"`
-	Procs        int    `json:"procs"`
-	Reps         int    `json:"reps"`
+	// HRRLater: after the return (and the end of the context) the backend
+	// answers with a HelloRetryRequest before the later I/O.
+	HRRLater bool   `json:"hrr_later,omitempty"`
+	After    string `json:"after"` // none | cancel | gosched-cancel | cancel-gosched | delay-cancel | timeout-after
+	DelayUs  int    `json:"delay_us,omitempty"`
+	Procs    int    `json:"procs"`
+	Reps     int    `json:"reps"`
 	// SlowDeadline: the transport's SetDeadline yields the processor this many
 	// times before it takes effect (a watcher that is slow to act).
 	SlowDeadline int `json:"slow_deadline,omitempty"`
@@ -284,16 +287,19 @@ func executeCtx(t *testing.T, prop string, seed uint64, p *CtxPlan) *core.Result
 			synctest.Wait()
 			// whenever the context ended: once NewConn has returned successfully
 			// nothing may touch the connection's deadlines any more
-			for _, d := range fc.DeadlineCalls() {
-				if d.Seq > retSeq {
-					when := "after the return (" + p.After + ")"
-					if endedDuring {
-						when = "while NewConn was finishing (" + p.InRead + ")"
+			deadlinesUntouched := func(phase string) {
+				for _, d := range fc.DeadlineCalls() {
+					if d.Seq > retSeq {
+						when := "after the return (" + p.After + ")"
+						if endedDuring {
+							when = "while NewConn was finishing (" + p.InRead + ")"
+						}
+						res.Fail(prop, "ctx", "deadline set on the connection after NewConn returned successfully", "%s(%v) at virtual +%v; context ended %s; seen %s", d.Kind, d.T.Sub(w.T0), time.Duration(d.At), when, phase)
+						break
 					}
-					res.Fail(prop, "ctx", "deadline set on the connection after NewConn returned successfully", "%s(%v) at virtual +%v; context ended %s", d.Kind, d.T.Sub(w.T0), time.Duration(d.At), when)
-					break
 				}
 			}
+			deadlinesUntouched("an hour after the return")
 			if endedDuring {
 				res.Probe("ctx_end_during_newconn_ok")
 			} else {
@@ -305,6 +311,15 @@ func executeCtx(t *testing.T, prop string, seed uint64, p *CtxPlan) *core.Result
 				// its context ended
 				// later I/O works
 				extra := echbox.Record(23, 0x0303, []byte("later"))
+				if p.HRRLater && conn.ECHAccepted() {
+					// the backend asks for a retry long after the context ended: the
+					// Conn waits for the second hello with no context to go by
+					if _, werr := conn.Write(hrrRecord(seed)); werr != nil {
+						res.Fail(prop, "ctx", "Conn.Write(HelloRetryRequest) fails after the NewConn context ended: "+normErr(werr), "")
+					}
+					res.Probe("hrr_after_ctx_end")
+					cc.Write(echbox.Record(20, 0x0303, []byte{1}))
+				}
 				cc.Write(extra)
 				buf := make([]byte, 70000)
 				var got []byte
@@ -330,6 +345,9 @@ func executeCtx(t *testing.T, prop string, seed uint64, p *CtxPlan) *core.Result
 					res.Fail(prop, "ctx", "Conn.Write fails after the NewConn context ended: "+normErr(werr), "%s", when)
 				}
 			}
+			time.Sleep(time.Hour)
+			synctest.Wait()
+			deadlinesUntouched("after the later I/O")
 			cancel()
 			fc.Close()
 			cc.Close()
@@ -376,6 +394,7 @@ func genC10(seed uint64, idx int) *Plan {
 	c.Buffered = r.IntN(2) == 0
 	c.Frags = 1 + r.IntN(6)
 	c.LatUs = []int{0, 10, 1000, 50000}[r.IntN(4)]
+	c.HRRLater = (idx/32)%2 == 1
 	// the action grid
 	switch (idx / 4) % 8 {
 	case 0:
